@@ -17,7 +17,10 @@ A thread that re-reads `step_` in the spin loop without an intervening change of
 assumption, see harness/detsched/sched.hpp): `spin ts true` is enabled iff
 `step ≠ ts`.
 
-Ghost state: per thread `arrived` / `left`, global `actions`.
+Ghost state: per thread `arrived` / `left`, global `begun` / `actions` (actions begun / ended).
+
+The action is a multi-step action: it begins (`actB`) after `waiting_.store(0)`, takes `actYields`
+scheduling points (`act j`) and ends (`actE`) before `step_.fetch_add(1)` publishes the new generation.
 -/
 import TlxVerif.Model.C10Sched
 namespace TlxVerif.C11.BarS
@@ -29,6 +32,7 @@ inductive Pc
   | loadStep                         -- this_step = step_.load()
   | fetchAdd (ts : Nat)              -- waiting_.fetch_add(1)
   | storeWaiting                     -- waiting_.store(0)
+  | act (j : Nat)                    -- inside lambda(): `j` more scheduling points of the action to go
   | bumpStep                         -- step_.fetch_add(1)   (after lambda())
   | spin (ts : Nat) (seen : Bool)    -- step_.load() in the loop; seen = already read the unchanged value
   | yield (ts : Nat)                 -- std::this_thread::yield()
@@ -48,11 +52,15 @@ structure State where
   step : Nat := 0
   spawned : Nat := 0
   thr : List Thread
+  /-- scheduling points inside the action -/
+  actYields : Nat := 0
+  /-- ghost: actions begun / actions ended -/
+  begun : Nat := 0
   actions : Nat := 0
   deriving Repr
 
-def init (n gens : Nat) (yielding : Bool) : State :=
-  { n := n, gens := gens, yielding := yielding, thr := { pc := .start } :: List.replicate n { pc := .start } }
+def init (n gens : Nat) (yielding : Bool) (actYields : Nat := 0) : State :=
+  { n := n, gens := gens, yielding := yielding, actYields := actYields, thr := { pc := .start } :: List.replicate n { pc := .start } }
 
 def pcOf (s : State) (t : Nat) : Pc := (s.thr[t]?.map (·.pc)).getD .finished
 /-- update the record of thread `t` -/
@@ -72,6 +80,12 @@ def spurCand (_s : State) (_t : Nat) : Bool := false
 
 def unfinished (s : State) (t : Nat) : Bool :=
   t < s.thr.length && t ≤ s.spawned && pcOf s t != .finished
+
+/-- where the releaser goes when the action begins: without scheduling points inside, the action also ends in
+    the same step -/
+def beginPc (s : State) : Pc := if s.actYields = 0 then .bumpStep else .act s.actYields
+def beginEnded (s : State) : Nat := if s.actYields = 0 then s.actions + 1 else s.actions
+def beginEvs (s : State) (t : Nat) : List String := if s.actYields = 0 then [ev t s!"actE{s.actions}"] else []
 
 def out (s : State) (evs : List String) : Option (StepOut State) := some { st := s, evs := evs }
 
@@ -103,7 +117,12 @@ def step (s : State) (t : Nat) (_c : Nat) : Option (StepOut State) :=
         [ev t s!"rmw(waiting)={s.waiting + 1}"]
   | .storeWaiting =>
     -- waiting_.store(0); lambda();
-    out (setPc { s with waiting := 0, actions := s.actions + 1 } t .bumpStep) [ev t "st(waiting)=0", ev t s!"act{s.actions}"]
+    -- the action begins; without scheduling points inside it also ends in this step
+    out (setPc { s with waiting := 0, begun := s.begun + 1, actions := beginEnded s } t (beginPc s))
+        ([ev t "st(waiting)=0", ev t s!"actB{s.begun}"] ++ beginEvs s t)
+  | .act j =>
+    if j ≤ 1 then out (setPc { s with actions := s.actions + 1 } t .bumpStep) [ev t "yield", ev t s!"actE{s.actions}"]
+    else out (setPc s t (.act (j - 1))) [ev t "yield"]
   | .bumpStep =>
     -- step_.fetch_add(1); return
     out (upd { s with step := s.step + 1 } t fun th => { th with left := th.left + 1, pc := nextCall s th })
